@@ -75,6 +75,11 @@ class Prop:
                     for flag in ['', ' all']:
                         cs.append(Case('rep %d proj all %s%s' % (reps, spec_ordered(root, tp, rp), flag), 'project',
                                        meta=('g%d%s' % (gid, flag))))
+                    # one object per type and rule, used again by every repetition (the answers of the group without sharing)
+                    if ti and tp == perms[0]:
+                        for flag in ['', ' all']:
+                            cs.append(Case('rep %d proj all %s%s share' % (reps, spec_ordered(root, tp, rp), flag), 'project-shared-objects',
+                                           meta=('g%d%s' % (gid, flag))))
                     # a chain of registrations: the first type on the root, the second on the first, ... (each order is a project
                     # of its own: no comparison between the orders)
                     if ti:
